@@ -44,6 +44,8 @@ ASSUMPTIONS = [
     'modelled through its references (basis setter on a member after the system was built); nested systems are '
     'flattened by the driver (members one after the other, every level re-checks the bases)',
     'KineticReaction, ReactionItem/X setters and reaction arithmetic (C17) are not modelled',
+    'an integer ndarray is refused (proposed repair fixes_proposed/C05-7.md; the code as found truncates the result on '
+    'write-back); Python lists behave like float arrays; float32 arrays are not generated',
     'the model follows the repaired behaviour of fixes_proposed/C05-1..5 (multi-phase other-package write-back '
     '[already in /repo], phase-less reaction on a MultiStream, SparseArray argument, check_atomic_balance, '
     'remove_negligible_negative_values) rather than the code as found',
@@ -102,7 +104,7 @@ def setup():
 
 def budget(tier):
     return {'quick': dict(seconds=55, cases=4800, shrink_s=12, search_s=5),
-            'thorough': dict(seconds=480, cases=128000, shrink_s=40, search_s=20)}[tier]
+            'thorough': dict(seconds=480, cases=96000, shrink_s=40, search_s=20)}[tier]
 
 
 # --------------------------------------------------------------------------
@@ -189,6 +191,8 @@ class World:
             for t in payload.split(','):
                 ID, p, c = t.split(':')
                 definition[ID] = (p, float(F(c)))
+        elif dk == 'xarr':
+            definition = [[float(x) for x in r] for r in parse_rows(payload)]
         else:
             raise ValueError(dk)
         kw = dict(extra)
@@ -399,9 +403,10 @@ class World:
         if mk == 'view':
             return self.call_view(toks, i, failures, name, e, obj, rchems, rows, basis, force, react)
         sig0 = f'{e["kind"]}/{"force-" if force else ""}{mk}'
-        def fail(clause, what):
+        def fail(clause, what, only_if_exact=False):
             # layout-type clauses are named after the material, the others after the kind of object
-            if clause in ('layout-corrupt', 'phaseless-on-multistream', 'call-has-no-effect'):
+            if clause in ('layout-corrupt', 'phaseless-on-multistream', 'call-has-no-effect', 'int-array-truncated',
+                          'conversion-changed-material'):
                 mat = sig0.split('/')[1].replace('force-', '')
                 if clause != 'layout-corrupt': mat = mat.replace('-otherpkg', '')
                 sig = mat + ':' + clause
@@ -410,22 +415,31 @@ class World:
             else:
                 sig = e['kind'] + ':' + clause
             if not any(f['op_index'] == i for f in failures):
-                failures.append({'signature': sig, 'op_index': i, 'what': f'[{sig0}] {what}'})
+                failures.append({'signature': sig, 'op_index': i, 'what': f'[{sig0}] {what}',
+                                 'only_if_exact': only_if_exact})
         if mk == 'arr':
             how = kv(toks, 'as', 'nd')
             a0 = np.array(rows[0] if len(rows) == 1 else rows, float)
             if how == 'sp':
                 mat = SparseVector(a0) if a0.ndim == 1 else SparseArray(a0)
+            elif how == 'int':
+                mat = a0.astype(np.int64)
+            elif how == 'list':
+                mat = [float(x) for x in a0] if a0.ndim == 1 else a0.copy()
             else:
                 mat = a0.copy()
             sig0 += f'-{how}{a0.ndim}d/{basis}'
             chems = rchems
             before = a0 if a0.ndim == 2 else a0[None, :]
+            if mode == 'conversion':
+                return self.call_conversion(obj, mat, before, None, fail)
             try:
                 react(mat)
             except Exception as ex:
                 ec = err_class(ex)
-                if ec == 'BasisMix' and self.mixed_basis(e):
+                if how == 'int' and ec == 'TypeError':
+                    pass                # an integer array cannot hold the result: refused
+                elif ec == 'BasisMix' and self.mixed_basis(e):
                     pass
                 elif ec == 'Infeasible' and not force:
                     self.check_raise(obj, e, before, ec, fail, rchems, basis, array=True)
@@ -435,6 +449,13 @@ class World:
                 return 'err=' + ec
             after = np.asarray(mat.to_array() if how == 'sp' else mat, float)
             after = after if after.ndim == 2 else after[None, :]
+            if how == 'int':
+                # (only reached while the write-back silently truncates)
+                exp = before + self.expected_delta(obj, before)
+                if np.abs(after - exp).max() > 1e-9 * max(1., float(np.abs(exp).max())):
+                    fail('int-array-truncated', f'an integer array came back as {after.tolist()!r}; the reaction makes '
+                                                f'it {exp.tolist()!r} (write-back truncated to the array\'s dtype)')
+                    return 'out=' + frows(after)
             # an array is in the reaction's own basis: masses for a wt reaction
             MW = chems.MW
             mol_b = before / MW if basis == 'wt' else before
@@ -450,6 +471,8 @@ class World:
                 f'{"-phased" if obj._phases else ""}'
         before = self.stream_rows(s).copy()
         mass_b = float(s.F_mass)
+        if mode == 'conversion':
+            return self.call_conversion(obj, s, before, (schems, ph), fail)
         try:
             react(s)
         except Exception as ex:
@@ -490,6 +513,31 @@ class World:
                     mass=(mass_b, mass_a), other=other, force=force, rchems=rchems)
         return 'out=' + frows(after)
 
+    def call_conversion(self, obj, mat, before, stream, fail):
+        """`Reaction.conversion(material)`: reports the change, leaves the material (and its package) alone"""
+        try:
+            obj.conversion(mat)
+        except Exception as ex:
+            return 'err=' + err_class(ex)
+        if stream is not None:
+            schems, ph = stream
+            try:
+                ok = (mat.chemicals is schems and mat.imol.chemicals is schems)
+                after = self.stream_rows(mat)
+                ok = ok and after.shape == before.shape
+            except Exception:
+                ok = False
+            if not ok:
+                fail('layout-corrupt', 'after Reaction.conversion the stream is not on its own package any more')
+                return 'out=?'
+        else:
+            after = np.asarray(mat.to_array() if hasattr(mat, 'to_array') else mat, float)
+            after = after if after.ndim == 2 else after[None, :]
+        if (after != before).any():
+            fail('conversion-changed-material', f'Reaction.conversion changed the material it was asked about: '
+                                                f'{before.tolist()!r} -> {after.tolist()!r}')
+        return 'out=' + frows(after)
+
     def call_view(self, toks, i, failures, name, e, obj, rchems, rows, basis, force, react):
         """the material is a flow array that is a *view* of a stream of the reaction's own package:
         stream.mol / imol.data, stream.mass / imass.data (DictionaryView: reacted copy written back through it),
@@ -497,13 +545,14 @@ class World:
         sel = kv(toks, 'sel'); ph = kv(toks, 'ph'); own = kv(toks, 'own', ph)
         k = e['pkg']
         sig0 = f'{e["kind"]}/{"force-" if force else ""}view-{sel}{"-phase" if own != ph else ""}/{basis}'
-        def fail(clause, what):
+        def fail(clause, what, only_if_exact=False):
             if clause in ('layout-corrupt', 'call-has-no-effect', 'view-other-phase-changed'):
                 sig = f'view-{sel}:{clause}'
             elif force: sig = 'force:' + clause
             else: sig = e['kind'] + ':' + clause
             if not any(f['op_index'] == i for f in failures):
-                failures.append({'signature': sig, 'op_index': i, 'what': f'[{sig0}] {what}'})
+                failures.append({'signature': sig, 'op_index': i, 'what': f'[{sig0}] {what}',
+                                 'only_if_exact': only_if_exact})
         own_sorted = ''.join(sorted(own))
         if own == ph:
             owner_rows = rows
@@ -754,6 +803,21 @@ class World:
                     fail('missing-raise', f'returned normally although the conversion requires negative flows '
                                           f'(sum {float(exp[exp < 0].sum())!r})')
                     return
+                if not force and exp[exp < 0].sum() < -1.001e-12:
+                    # inside the round-off window of this recomputation: counts only where the driver finds every
+                    # intermediate exactly representable (filter_failures)
+                    fail('missing-raise', f'returned normally although the negative flows sum to '
+                                          f'{float(exp[exp < 0].sum())!r} < -1e-12', only_if_exact=True)
+                    return
+                if force and (vals_a < 0).any():
+                    # force_reaction / CHECK_FEASIBILITY=False promise to drop negatives that are negligible
+                    # against the total (x / Σ|x| > -1e-16)
+                    tot = float(np.abs(vals_a).sum())
+                    neg = vals_a[vals_a < 0]
+                    if tot > 1e-16 and (neg / tot > -0.5e-16).any():
+                        fail('negligible-negative-left', f'a negligible negative flow {float(neg.max())!r} '
+                                                         f'(total {tot!r}) was left in the material')
+                        return
             except Exception:
                 pass
         # 6. mol and wt basis act identically on a stream
@@ -795,6 +859,7 @@ def run_impl(case: Case) -> ImplResult:
         if toks[0] == 'call':
             if kv(toks, 'mode') == 'force': tags.add('call:force')
             if kv(toks, 'mode') == 'nocheck': tags.add('call:nocheck')
+            if kv(toks, 'mode') == 'conversion': tags.add('call:conversion')
             if toks[2] == 'view':
                 tags.add(f'call:view-{kv(toks, "sel")}' + ('-phase' if kv(toks, 'own') else ''))
             if toks[1] in W.objs and any(W.objs[m]['kind'] == 'sys' for m in W.objs[toks[1]]['members'] if m in W.objs):
@@ -880,6 +945,18 @@ def compare(impl_line, model_line):
         if key in fm and fi.get(key) != fm.get(key): return False
     if impl_line.startswith('ok') != model_line.startswith('ok'): return False
     return True
+
+
+def filter_failures(res, model_out):
+    """an oracle failure that rests on a recomputation inside its own round-off window counts only where the driver
+    found every intermediate of that line exactly representable"""
+    keep = []
+    for f in res.failures:
+        if f.get('only_if_exact'):
+            i = f['op_index']
+            if not (i < len(model_out) and fields(model_out[i]).get('exact') == '1'): continue
+        keep.append(f)
+    return keep
 
 
 def model_tags(line):
@@ -1106,6 +1183,14 @@ def gen_rxn(rng, name, k, phases, intent_out, force_basis=None, exact_bias=False
              for u, c in d_true.items()}
     if how < 0.6:
         dk, payload = 'str', render_str(rng, d, names_of, phase_of)
+    elif phases and how > 0.9 and not rebalance and not bad:
+        dk = 'xarr'          # Reaction([[…], […]], phases=…): rows in the order of the sorted phases
+        phases_kw = ''.join(rng.sample(phases, len(phases)))
+        ptx = sorted(phases_kw)
+        rowsx = [[F(0)] * len(ids) for _ in ptx]
+        for u, c in d.items(): rowsx[ptx.index(phase_of[u])][ids.index(u)] = F(float(c))
+        payload = frows(rowsx)
+        auto = False
     elif phases:
         dk = 'xdict'
         payload = ','.join(f'{rng.choice(names_of(u))}:{phase_of[u]}:{frac(float(c))}' for u, c in d.items())
@@ -1142,6 +1227,10 @@ def gen_rxn(rng, name, k, phases, intent_out, force_basis=None, exact_bias=False
         if dk == 'str': payload = render_str(rng, dw, names_of, phase_of)
         elif dk == 'xdict':
             payload = ','.join(f'{rng.choice(names_of(u))}:{phase_of[u]}:{frac(float(c))}' for u, c in dw.items())
+        elif dk == 'xarr':
+            rowsx = [[F(0)] * len(ids) for _ in pt]
+            for u, c in dw.items(): rowsx[pt.index(phase_of[u])][ids.index(u)] = c
+            payload = frows(rowsx)
         else:
             payload = ','.join(f'{rng.choice(names_of(u))}:{frac(float(c))}' for u, c in dw.items())
         ops = [f'rxn {name} pkg={k} basis=wt X={frac(float(X))} r={"auto" if auto else U[ru].ID} '
@@ -1386,13 +1475,21 @@ def gen_case(rng):
                 zero = [i for i, (a, b) in enumerate(zip(feed, res)) if b == 0 and a > 0]
                 if zero:
                     i = rng.choice(zero)
-                    cut = F(1, 2**rng.choice([45, 41, 50])) if variant == 'clamp' else \
-                        F(1, 2**rng.choice([1, 3, 8, 12, 20, 30, 38]))
+                    cut = F(1, 2**rng.choice([45, 41, 50, 40, 40])) if variant == 'clamp' else \
+                        F(1, 2**rng.choice([1, 3, 8, 12, 20, 30, 38, 39, 39]))
                     if feed[i] > cut and float(feed[i] - cut) != float(feed[i]): feed[i] -= cut
             if all(abs(x) < 2**40 for x in feed):
                 base = [[float(x) for x in feed[i * n:(i + 1) * n]] for i in range(nrows)]
         # move to the stream's package / phase layout
         mode = rng.choices(['', ' mode=force', ' mode=nocheck'], [80, 12, 8])[0]
+        if shape == 'single' and not mal and rng.random() < 0.04: mode = ' mode=conversion'
+        if mode in (' mode=force', ' mode=nocheck') and variant == 'clamp' and plannable:
+            # a large inert flow makes the clamped residue negligible against the total (x / Σ|x| > -1e-16), which
+            # force_reaction / CHECK_FEASIBILITY=False promise to drop
+            inert = [j for j, u in enumerate(rids) if u not in touched and (mk != 'stream' or u in sids)]
+            if inert: base[0][rng.choice(inert)] = float(2**rng.choice([24, 30]))
+        if mk == 'arr' and not mal and basis == 'mol' and variant == 'rich' and rng.random() < 0.3:
+            base = [[float(math.ceil(x)) for x in r] for r in base]      # (more supply never hurts a rich feed)
         if mk == 'arr' and rng.random() < 0.4 and not mal:
             # the array is a view of a stream of the reaction's package: stream.mol / stream.mass /
             # imol.data / imass.data / the flows of one phase of a MultiStream
@@ -1406,6 +1503,11 @@ def gen_case(rng):
                 calls.append(f'call {target} view sel={sel} ph={rng.choice("lgs")}{mode} rows={frows(base)}')
         elif mk == 'arr':
             how = 'sp' if rng.random() < 0.25 else 'nd'
+            if mode != ' mode=conversion' and basis == 'mol' and all(float(x).is_integer() for r in base for x in r) \
+                    and rng.random() < 0.5:
+                how = 'int'                       # an integer ndarray
+            elif nrows == 1 and rng.random() < 0.08:
+                how = 'list'                      # a plain Python list
             if basis == 'wt' and not mal:
                 # an array handed to a weight-basis object holds masses
                 MWr = [float(x) for x in PKGS[rk]['chems'].MW]
@@ -1500,6 +1602,12 @@ def corpus():
               'call r0 stream pkg=0 ph=g rows=0,0,0,0,0,20,0,5,0,0,0,0',
               'call r0 arr as=nd rows=0,0,0,0,0,20,0,5,0,0,0,0'],
              I(r0={'nu': [['2', '0', '0', '0', '1', '-2', '0', '-1', '0', '0', '0', '0']], 'basis': 'mol'})),
+        # an integer ndarray (refused) and a plain list (works like a float array)
+        Case(['pkg 0', 'pkg 1', 'rxn r0 pkg=0 basis=mol X=1/2 r=H2 phases=- def=str | 2 H2 + O2 -> 2 Water',
+              'call r0 arr as=int rows=0,0,0,0,0,20,5,0,0,0,0,0',
+              'call r0 arr as=list rows=0,0,0,0,0,20,5,0,0,0,0,0',
+              'call r0 arr as=nd mode=conversion rows=0,0,0,0,0,20,5,0,0,0,0,0',
+              'call r0 stream pkg=1 ph=g mode=conversion rows=0,20,0,0,0,0,0,0,5,0,0,0,0,0']),
         # force_reaction with a negligible negative (alone, and next to a real one)
         Case(['pkg 0', 'rxn r0 pkg=0 basis=mol X=1 r=H2 phases=- def=str | 2 H2 + O2 -> 2 Water',
               'call r0 arr as=nd mode=force rows=5,0,0,0,0,35184372088831/35184372088832,4,0,0,0,0,0',
